@@ -1,6 +1,7 @@
 from .common import pyvc_units
 LEVEL = "other"
 EXPLANATION = ('Clause table. PROVED for all brightness in [0,1], purity in (1/2,1], indistinguishability in [0,1] (xlift symbolic, 14 symbolic paths covering the region, z3-nlsat + normal form): the real Source._single_photon_distribution / purity_to_prob give outcome weights >= 0 summing to one, photon-number statistics with g2 = 1 - purity for every brightness, indistinguishable : distinguishable = sqrt(I) : 1 - sqrt(I), two fresh labels per photon; perfect settings reduce to the ideal source; HOM visibility on a 50:50 beam splitter = indistinguishability for all I (both backends). BOUNDED, exact (xlift): on 3 circuits (lossless, lossy, photon-carrying herald), inputs of 1-2 photons (bunched, gaps), 6 exact parameter triples incl. I = 0 (classical particles), both backends: input statistics sum to one; output = mixture over per-photon emission outcomes of the convolution of the boson-sampling distributions of the mutually distinguishable groups (reference written from the statement); with a probability threshold the retained inputs are renormalised and the output stays normalised. NOT under contract: _full_distribution/_remap_distribution/group_empty_modes/annotated_state_pdist_calc individually (bounded end-to-end only).')
+EXPLANATION = EXPLANATION + ' ADDED IN ROUNDS 5-8. PROVED (pyvc): Source.__init__ stores every setting as given (also 0) and refuses what the setters refuse. BOUNDED: a re-used Sampler (earlier circuit with other heralds / other input) gives the mixture of its current configuration; default-constructed Samplers share no source object.'
 ASSUMPTIONS = ["A1: exact reals", "mixture law: bounded to inputs of <=2 photons on 3-mode circuits (lossless, lossy, photon-carrying herald), 6 exact parameter triples, both backends"]
 TRUSTED = ["xlift field + numpy proxy + exact permanent", "z3-nlsat 5.1", "statement-derived reference vf/tasks/t_source.py:per_photon_outcomes/reference_mixture"]
 
